@@ -133,7 +133,7 @@ func c01Regular(n, d int, slice bool) {
 	rt.Reach("end")
 }
 
-func H_c01_regular_q()   { c01Regular(8, 3, true) }
+func H_c01_regular_q()    { c01Regular(8, 3, true) }
 func H_c01_regular8_3_t() { c01Regular(8, 3, false) }
 func H_c01_regular8_4_t() { c01Regular(8, 4, false) }
 func H_c01_regular8_x_t() {
